@@ -113,7 +113,12 @@ func (e *escaper) escape(c context, n parse.Node) context {
 	case *parse.WithNode:
 		return e.escapeBranch(c, &n.BranchNode, "with")
 	}
-	panic("escaping " + n.String() + " is unimplemented")
+	// Node types this escaper does not know (e.g. {{break}} and {{continue}},
+	// which newer text/template parsers accept) cannot be analysed.
+	return context{
+		state: stateError,
+		err:   errorf(ErrEscapeAction, n, 0, "escaping %s is unimplemented", n),
+	}
 }
 
 // escapeAction escapes an action template node.
